@@ -1,0 +1,28 @@
+//! Verification hooks. Compiled only with `--cfg selium_verif`; never part of a normal build.
+//!
+//! A process-global observer that the verification harness installs to be told about
+//! linearisation points that are not otherwise visible from outside (adoption of a
+//! registration by a topic router, decisions of the registration path). Events are
+//! delivered synchronously on the thread on which they happen.
+
+use std::sync::RwLock;
+
+type Observer = Box<dyn Fn(&str, &str) + Send + Sync>;
+
+static OBSERVER: RwLock<Option<Observer>> = RwLock::new(None);
+
+/// Installs (or removes) the observer.
+pub fn set_observer(observer: Option<Observer>) {
+    *OBSERVER.write().unwrap_or_else(|e| e.into_inner()) = observer;
+}
+
+/// Reports an event to the observer, if one is installed.
+pub fn emit(event: &str, detail: &str) {
+    if let Some(observer) = OBSERVER
+        .read()
+        .unwrap_or_else(|e| e.into_inner())
+        .as_ref()
+    {
+        observer(event, detail);
+    }
+}
